@@ -5,7 +5,9 @@
 (*  CASE     [emits, recs, syms, radix, W]    context of one assembler run (kept in the log, state = index) *)
 (*  ROW      [line, addr, cont, units, at]     listing row; units = <<[size, shown]>>, shown = the bytes of  *)
 (*                                             the printed number, most significant first; at = index of    *)
-(*                                             the emission the harness proposes (TLC verifies it)          *)
+(*                                             the emission the harness proposes (TLC verifies it); a row   *)
+(*                                             without units is rejected if `at` names the code it ought to *)
+(*                                             show (Withheld: an extra text stands where the code belongs) *)
 (*  ENDROWS                                    end of the listing body: the open group must be complete     *)
 (*  SYM      [src, name, val, fmt]             a symbol report line (listing table, MAP, NoICE, share file);  *)
 (*                                             val = canonical hexadecimal text of the 64-bit value,         *)
@@ -72,13 +74,21 @@ Covers(q, seg, line, addr) ==
   /\ Ctx.emits[q].k \in {"emit", "reserve"}
   /\ LET d == SmallDiff(addr, Ctx.emits[q].addr) IN d >= 0 /\ d < Ctx.emits[q].units      \* units = address units of the line
 
+\* a row without units that stands for a line which produced code: the harness names the emission (at, found by
+\* aligning the rows with the hook's statement records: same line, same address, same operation, in order); it is a
+\* witness if it is an emission of that line, not listed yet, whose code the row ought to show (LineShown)
+Withheld(e) ==
+  /\ e.at >= ep /\ e.at >= 1 /\ e.at <= Len(Ctx.emits)
+  /\ Ctx.emits[e.at].k = "emit" /\ Ctx.emits[e.at].line = e.line
+  /\ ~LineShown([addr |-> e.addr, units |-> e.units], Em(e.at))
+
 TInit == l = 1 /\ ci = 0 /\ ep = 1 /\ g = NoGroup /\ bad = <<>> /\ skip = FALSE
 
 \* is event e what the specification allows in the current state?
 OK(e) ==
   CASE e.a = "CASE"  -> e.W = WidthsOf(e.radix)
     [] e.a = "ROW"   ->
-         IF e.units = <<>> THEN GroupDone
+         IF e.units = <<>> THEN GroupDone /\ ~Withheld(e)
          ELSE IF e.cont THEN (IF g.q = 0 THEN FALSE ELSE g.line = e.line /\ RowOK(e, g.q, g.off, g.big))
          ELSE GroupDone /\ e.at >= ep /\ RowOK(e, e.at, 0, "?")        \* rows and emissions come in the same order
     [] e.a = "ENDROWS" -> GroupDone
@@ -117,7 +127,9 @@ TNext ==
        ELSE IF skip /\ e.a \in {"ROW", "ENDROWS"} THEN UNCHANGED <<ci, ep, g, bad>> /\ skip' = (e.a = "ROW")
        ELSE IF (e.a # "CASE" /\ ci = 0) THEN UNCHANGED <<ci, ep, g, skip>> /\ bad' = Append(bad, l)
        ELSE IF OK(e) THEN Upd3(e) /\ skip' = FALSE /\ UNCHANGED bad
-       ELSE /\ bad' = Append(bad, l) /\ skip' = (e.a = "ROW")      \* rows behind a rejected row are not judged
+       ELSE /\ bad' = Append(bad, l) /\ skip' = (e.a = "ROW" /\ e.units # <<>>)      \* rows behind a rejected row are not
+                                                                                  \* judged (a row that withholds its code
+                                                                                  \* does not disturb the order)
             /\ IF e.a = "CASE" THEN ci' = l /\ ep' = 1 /\ g' = NoGroup ELSE g' = NoGroup /\ UNCHANGED <<ci, ep>>
 Consumed == TLCGet("stats").diameter - 1 = Len(TraceLog)
 Report == IF l > Len(TraceLog) THEN PrintT(<<"OUT", ToJson([bad |-> bad, n |-> Len(TraceLog)])>>) ELSE TRUE
